@@ -211,7 +211,10 @@ mechanisms:
           X-User: "{{ .Subject.ID }}"
 `, durYAML(leeway), ttls.proto.yaml("        "))
 	}
-	rules := fmt.Sprintf(c10Rules, "    - authenticator: authn"+ttls.stepConfig("cache_ttl")+"\n    - finalizer: echo")
+	// r1 may override the ttl, r2 (same mechanism, same cache) never does: what one rule stored must not outlive the
+	// ttl in force for the rule that reads it
+	rules := fmt.Sprintf(c10Rules, "    - authenticator: authn"+ttls.stepConfig("cache_ttl")+"\n    - finalizer: echo") +
+		"- id: r2\n  match:\n    routes:\n      - path: /res2/:id\n  execute:\n    - authenticator: authn\n    - finalizer: echo\n"
 	r.Logf("scenario=%s cache=%s cache_ttl=%s leeway=%s exp=%d", kind, cacheKind, ttls, leeway, expAt)
 	e, err := newEnv(r, cacheKind, mech, rules)
 	if err != nil {
@@ -244,10 +247,15 @@ mechanisms:
 	times := instants(s, n, bounds, 700)
 	lastContact := time.Duration(-1)
 	boundaryHit := false
+	ruleTTL := ttl
 	for _, at := range times {
 		bubble.At(e.epoch, at)
-		res := e.do("GET", "http://heimdall.local/res/1", map[string]string{"Authorization": "Bearer tok-1"})
-		r.Logf("req %v", res)
+		path, ttl := "/res/1", ruleTTL
+		if ttls.rule.set && s.Draw(3, "via-second-rule") == 2 {
+			path, ttl = "/res2/1", ttls.proto
+		}
+		res := e.do("GET", "http://heimdall.local"+path, map[string]string{"Authorization": "Bearer tok-1"})
+		r.Logf("req %s %v", path, res)
 		contacted := res.calls["idp"] > 0
 		if contacted && res.allowed {
 			lastContact = res.at
@@ -268,7 +276,7 @@ mechanisms:
 				if ttl.d == 0 {
 					r.Fail("reuse-with-ttl-zero", kind, "%s: request at %s accepted without contact although cache_ttl is 0", kind, t)
 				} else if lastContact >= 0 && t-lastContact > ttl.d {
-					r.Fail("reuse-beyond-configured-ttl", kind, "%s: request at %s served from an entry obtained at %s, cache_ttl=%s", kind, t, lastContact, ttl)
+					r.Fail("reuse-beyond-configured-ttl", kind, "%s: request to %s at %s served from an entry obtained at %s, cache_ttl in force for this rule=%s (%s)", kind, path, t, lastContact, ttl, ttls)
 				}
 				if lastContact >= 0 && t-lastContact > ttl.d-secs(5) {
 					boundaryHit = true
